@@ -41,6 +41,8 @@ type aplan struct {
 	Pad   int  `json:"pad"`   // bytes of padding appended to every reply payload of this attempt (large responses)
 	PadTo int  `json:"padto"` // if > 0: the reply payload is padded to exactly this many bytes (encoder size boundaries)
 	ErrRe bool `json:"errre"` // the handler answers with an ERROR response (w.Error) whose text is the tagged payload
+	BadRe bool `json:"badre"` // a response with the right ID but a procedure nobody registered is sent at once (kind B): it must be
+	// dropped before the lookup, never delivered (and gets the responder banned by the requester: last batch of its hosts)
 }
 
 type callPlan struct {
@@ -55,7 +57,9 @@ type callPlan struct {
 type callRec struct {
 	K         string   `json:"k"`
 	Batch     int      `json:"batch"`
-	BKind     string   `json:"bkind"` // kind of the batch the call ran in (the held-lock kinds are replayed with the hold)
+	BKind     string   `json:"bkind"`
+	BLimit    int      `json:"blimit"`   // rate limit / penalty of the requester's handler registration in this batch (0 = package default)
+	BPenalty  int      `json:"bpenalty"` // kind of the batch the call ran in (the held-lock kinds are replayed with the hold)
 	TimeoutMs int      `json:"timeout_ms"`
 	Plan      callPlan `json:"plan"`
 	Class     string   `json:"class"`    // ok | timeout | cancelled | other | hang
@@ -81,6 +85,9 @@ type batchRec struct {
 	Hang        bool   `json:"hang"`
 	StatsStable bool   `json:"stats_stable"` // the per-response statistics stopped changing before they were read
 	Completed   int    `json:"completed"`
+	// responses the requester dropped because its rate limiter returned an error (they are counted as "seen")
+	LimiterErrors int     `json:"limiter_errors,omitempty"`
+	Scale         float64 `json:"scale"` // load factor measured at start; every real-time margin was multiplied by it
 }
 
 type responder struct {
@@ -128,6 +135,9 @@ func (r *responder) handler(w p2p.ResponseWriter, req *p2p.Request) {
 	if pl.Early {
 		_ = r.node.Respond(ctx, to, req.ID, proc, pay("E"))
 	}
+	if pl.BadRe {
+		_ = r.node.Respond(ctx, to, req.ID, "nosuch-procedure", pay("B"))
+	}
 	if d := time.Duration(pl.Lat)*time.Millisecond + time.Duration(pl.LatUs)*time.Microsecond; d > 0 {
 		time.Sleep(d)
 	}
@@ -174,9 +184,48 @@ func classify(data []byte, err error) (class, etxt string, pc, pa int, pk string
 	return "ok", "", pc, pa, k
 }
 
+// loadScale >= 1 is measured once at start (calibrate): how much later than asked a sleeping goroutine wakes up on this machine right
+// now. Every real-time margin of the driver (watchdogs, lock probes, quiescence, the timeouts and holds of the margin-based batches)
+// is multiplied by it, so that a loaded machine gets proportionally wider margins instead of false deviations.
+var loadScale = 1.0
+
+func calibrate() float64 {
+	worst := time.Duration(0)
+	for i := 0; i < 40; i++ {
+		t0 := time.Now()
+		time.Sleep(2 * time.Millisecond)
+		if ov := time.Since(t0) - 2*time.Millisecond; ov > worst {
+			worst = ov
+		}
+	}
+	// CPU-bound probe with competing goroutines: time slices under contention
+	t0 := time.Now()
+	x := 0
+	for i := 0; i < 30_000_000; i++ {
+		x += i & 3
+	}
+	cpu := time.Since(t0)
+	_ = x
+	s := 1.0 + float64(worst)/float64(3*time.Millisecond)
+	if c := float64(cpu) / float64(25*time.Millisecond); c > s {
+		s = c
+	}
+	if s < 1 {
+		s = 1
+	}
+	if s > 12 {
+		s = 12
+	}
+	return s
+}
+
+func scaled(d time.Duration) time.Duration { return time.Duration(float64(d) * loadScale) }
+func scaledMs(ms int) int                  { return int(float64(ms) * loadScale) }
+
 type env struct {
-	req, rsp *p2p.VerifC17Node
-	r        *responder
+	req, rsp       *p2p.VerifC17Node
+	r              *responder
+	limit, penalty int
 }
 
 func newEnv(timeout time.Duration) *env { return newEnvLimited(timeout, 1<<30, 0) }
@@ -200,7 +249,7 @@ func newEnvLimited(timeout time.Duration, limit, penalty int) *env {
 	if err := req.Connect(ctx, rsp); err != nil {
 		panic(err)
 	}
-	return &env{req: req, rsp: rsp, r: r}
+	return &env{req: req, rsp: rsp, r: r, limit: limit, penalty: penalty}
 }
 
 func (e *env) close() { e.req.Close(); e.rsp.Close() }
@@ -232,13 +281,19 @@ func runBatch(e *env, batch int, kind string, timeoutMs int, plans []callPlan, s
 	recs := make([]callRec, len(plans))
 	var done int64
 	var wg sync.WaitGroup
-	budget := time.Duration((p2p.VerifC17MaxRetries+1)*(timeoutMs+400)+3000) * time.Millisecond
+	maxStart := 0
+	for _, cp := range plans {
+		if cp.StartMs > maxStart {
+			maxStart = cp.StartMs
+		}
+	}
+	budget := scaled(time.Duration((p2p.VerifC17MaxRetries+1)*(timeoutMs+400)+3000+maxStart) * time.Millisecond)
 	for i := range plans {
 		wg.Add(1)
 		go func(i int) {
 			defer wg.Done()
 			cp := plans[i]
-			rec := callRec{K: "call", Batch: batch, BKind: kind, TimeoutMs: timeoutMs, Plan: cp}
+			rec := callRec{K: "call", Batch: batch, BKind: kind, BLimit: e.limit, BPenalty: e.penalty, TimeoutMs: timeoutMs, Plan: cp}
 			defer func() {
 				if x := recover(); x != nil {
 					rec.Class, rec.Panic = "other", fmt.Sprint(x)
@@ -287,9 +342,9 @@ func runBatch(e *env, batch int, kind string, timeoutMs int, plans []callPlan, s
 	time.Sleep(time.Duration(settleMs) * time.Millisecond)
 	e.r.wg.Wait()
 	time.Sleep(50 * time.Millisecond)
-	br := batchRec{K: "batch", Batch: batch, Kind: kind, Calls: len(plans), Completed: int(atomic.LoadInt64(&done))}
-	br.Pending = e.req.Pending(time.Second)
-	br.PendingRsp = e.rsp.Pending(time.Second)
+	br := batchRec{K: "batch", Batch: batch, Kind: kind, Calls: len(plans), Completed: int(atomic.LoadInt64(&done)), Scale: loadScale}
+	br.Pending = e.req.Pending(scaled(3 * time.Second))
+	br.PendingRsp = e.rsp.Pending(scaled(3 * time.Second))
 	e.r.mu.Lock()
 	// The acceptance statistics are read only once they are quiescent: a response handler that is still between decoding the
 	// message and reporting what it did with it would make "accepted = seen - unknown - duplicate" too large for a moment.
@@ -305,16 +360,29 @@ func runBatch(e *env, batch int, kind string, timeoutMs int, plans []callPlan, s
 	}
 	stable := false
 	stats := snapshot()
-	for tries := 0; tries < 25 && !stable; tries++ {
-		time.Sleep(80 * time.Millisecond)
+	// three equal snapshots, scaled(120 ms) apart: a handler would have to be stalled for more than twice that between two adjacent
+	// statements, on a machine whose measured scheduling delay is already part of the gap
+	equalRuns := 0
+	for tries := 0; tries < 30 && equalRuns < 2; tries++ {
+		time.Sleep(scaled(120 * time.Millisecond))
 		again := snapshot()
-		stable = len(again) == len(stats)
+		same := len(again) == len(stats)
 		for id, v := range again {
 			if stats[id] != v {
-				stable = false
+				same = false
 			}
 		}
+		if same {
+			equalRuns++
+		} else {
+			equalRuns = 0
+		}
 		stats = again
+	}
+	stable = equalRuns >= 2
+	if e.req.LimiterErrors() > 0 {
+		stable = false // responses dropped by a rate limiter error are counted as "seen": statistics unusable
+		br.LimiterErrors = e.req.LimiterErrors()
 	}
 	br.StatsStable = stable
 	for i := range recs {
@@ -601,6 +669,7 @@ func main() {
 	dlRounds := flag.Int("deadline", 10, "rounds of the deadline batch (replies within microseconds of the timer, all calls at once)")
 	dlCalls := flag.Int("dlcalls", 48, "concurrent calls per deadline round")
 	crRounds := flag.Int("cancelrace", 10, "rounds of the cancel-race batch (replies within microseconds of the cancellation + follow-up calls)")
+	rescale := flag.Int("rescale", 1, "replay: multiply the timeouts (and what is defined relative to them) by this factor")
 	doLarge := flag.Bool("large", true, "run the large-payload batch")
 	doLimits := flag.Bool("limits", true, "run the batches with the default rate limit / a zero penalty and with ERROR responses")
 	doShutdown := flag.Bool("shutdown", true, "run the shutdown scenarios (Connection.Stop with requests in flight)")
@@ -625,6 +694,8 @@ func main() {
 	r := hx.NewRng(hx.SeedFromEnv())
 	o := hx.NewOut(*out)
 	defer o.Close()
+	loadScale = calibrate()
+	o.Put(map[string]interface{}{"k": "env", "scale": loadScale})
 
 	if *in != "" {
 		data, err := os.ReadFile(*in)
@@ -634,7 +705,12 @@ func main() {
 		groups := map[string][]callPlan{}
 		tmo := map[string]int{}
 		kinds := map[string]string{}
+		lims := map[string][2]int{}
 		var order []string
+		k := *rescale
+		if k < 1 {
+			k = 1
+		}
 		for _, line := range strings.Split(string(data), "\n") {
 			if strings.TrimSpace(line) == "" {
 				continue
@@ -648,27 +724,45 @@ func main() {
 			if _, ok := groups[key]; !ok {
 				order = append(order, key)
 			}
-			groups[key] = append(groups[key], rec.Plan)
-			tmo[key] = rec.TimeoutMs
+			// re-run with margins multiplied by k (and by the load measured now): the timeout and everything defined relative to it
+			cp := rec.Plan
+			if k > 1 {
+				for i := range cp.Attempts {
+					if cp.Attempts[i].Lat >= rec.TimeoutMs {
+						cp.Attempts[i].Lat *= k
+					}
+				}
+				cp.CancelMs *= k
+			}
+			groups[key] = append(groups[key], cp)
+			tmo[key] = rec.TimeoutMs * k
+			lims[key] = [2]int{rec.BLimit, rec.BPenalty}
 		}
 		for bi, key := range order {
-			e := newEnv(time.Duration(tmo[key]) * time.Millisecond)
+			// the batch's own rate limit (0 = package default; records written before the limit was recorded carry 0 as well:
+			// the default of 100 messages is far above what they send)
+			e := newEnvLimited(scaled(time.Duration(tmo[key])*time.Millisecond), lims[key][0], lims[key][1])
 			kind := "replay"
 			switch kinds[key] {
 			case "held-timeout":
 				kind = "held-timeout"
 				go func(d int) {
 					time.Sleep(2 * time.Millisecond)
-					e.req.HoldResMu(time.Duration(d+25) * time.Millisecond)
+					e.req.HoldResMu(scaled(time.Duration(d+25) * time.Millisecond))
 				}(tmo[key])
 			case "held-cancel":
 				kind = "held-cancel"
 				go func() {
 					time.Sleep(2 * time.Millisecond)
-					e.req.HoldResMu(48 * time.Millisecond)
+					e.req.HoldResMu(time.Duration(48*k) * time.Millisecond)
 				}()
+			default:
+				kind = kinds[key]
+				if kind == "" {
+					kind = "replay"
+				}
 			}
-			recs, br := runBatch(e, bi+1, kind, tmo[key], groups[key], 2*tmo[key]+150, nil)
+			recs, br := runBatch(e, bi+1, kind, scaledMs(tmo[key]), groups[key], 2*scaledMs(tmo[key])+150, nil)
 			for _, rec := range recs {
 				o.Put(rec)
 			}
@@ -683,9 +777,10 @@ func main() {
 	batch := 0
 	for i := 0; i < *nrounds; i++ {
 		batch++
-		e := newEnv(time.Duration(*timeoutMs) * time.Millisecond)
-		plans := detPlans(r, *ndet, *timeoutMs, batch*1000)
-		recs, br := runBatch(e, batch, "det", *timeoutMs, plans, 2*(*timeoutMs)+150, nil)
+		tm := scaledMs(*timeoutMs)
+		e := newEnv(time.Duration(tm) * time.Millisecond)
+		plans := detPlans(r, *ndet, tm, batch*1000)
+		recs, br := runBatch(e, batch, "det", tm, plans, 2*tm+150, nil)
 		for _, rec := range recs {
 			o.Put(rec)
 		}
@@ -730,6 +825,30 @@ func main() {
 		o.Put(br)
 		e.close()
 	}
+	if *doLimits {
+		// (c) responses that onResponse must drop before the lookup: right ID, procedure without a registered handler; the normal reply
+		// comes too late. Never delivered; the requester bans the responder, so this is the last batch of this host pair.
+		batch++
+		tm := scaledMs(200)
+		e := newEnv(time.Duration(tm) * time.Millisecond)
+		nAtt := p2p.VerifC17MaxRetries + 1
+		var plans []callPlan
+		for i := 0; i < 3; i++ {
+			cp := callPlan{Call: batch*1000 + i + 1, Strict: false}
+			for k := 0; k < nAtt; k++ {
+				cp.Attempts = append(cp.Attempts, aplan{BadRe: true, Lat: 2 * tm, Late: true})
+			}
+			plans = append(plans, cp)
+		}
+		recs, br := runBatch(e, batch, "bad-responses", tm, plans, 2*tm+100, nil)
+		for _, rec := range recs {
+			o.Put(rec)
+		}
+		o.Put(br)
+		if !br.Hang {
+			e.close()
+		}
+	}
 	if *doShutdown {
 		for _, sc := range []string{"plain", "race-timeout", "plain", "race-timeout"} {
 			o.Put(runShutdown(sc))
@@ -737,14 +856,14 @@ func main() {
 	}
 	if *heldRounds > 0 {
 		// (a) resMu held across the deadline
-		const hTimeout = 60
-		e := newEnv(hTimeout * time.Millisecond)
+		hTimeout := scaledMs(60)
+		e := newEnv(time.Duration(hTimeout) * time.Millisecond)
 		for i := 0; i < *heldRounds; i++ {
 			batch++
 			plans := heldTimeoutPlans(12, batch*1000)
 			go func() {
 				time.Sleep(2 * time.Millisecond)
-				e.req.HoldResMu((hTimeout + 25) * time.Millisecond)
+				e.req.HoldResMu(time.Duration(hTimeout+scaledMs(25)) * time.Millisecond)
 			}()
 			recs, br := runBatch(e, batch, "held-timeout", hTimeout, plans, 2*hTimeout+30, nil)
 			for _, rec := range recs {
@@ -764,10 +883,10 @@ func main() {
 			// collections), so that objects released by the cancelled calls are the ones the follow-up calls pick up.
 			runtime.GC()
 			runtime.GC()
-			plans := heldCancelPlans(16, 48, 30, 60, batch*1000)
+			plans := heldCancelPlans(16, 48, scaledMs(30), scaledMs(60), batch*1000)
 			go func() {
 				time.Sleep(2 * time.Millisecond)
-				e.req.HoldResMu(48 * time.Millisecond)
+				e.req.HoldResMu(scaled(48 * time.Millisecond))
 			}()
 			recs, br := runBatch(e, batch, "held-cancel", 300, plans, 80, nil)
 			for _, rec := range recs {
